@@ -5,11 +5,11 @@
       definition with or without `!` (`defn_turn_l2`);
     * `!` in front of a definition of a flat document (`renderB_l2`, `parseObjs_renderB_l2`;
       Phil/Props/C02Bang.lean);
-    * nested braces versus dotted names on canonical texts (`Obj.eraseMerge`, `bracesIn_l2`,
+    * nested braces versus dottedName names on canonical texts (`Obj.eraseMerge`, `bracesIn_l2`,
       `dottedIn_l2`, `parseObjs_flatKids_l2`; Phil/Props/C02Nested.lean);
     * nested documents under a layout grammar given as data (`LayItem`, `renderN`, `wfDocN`,
       `parseObjs_renderN_l2` with the closed form `layObjs`; abstract tree `layTrees`, ids, `!`,
-      dotted names in any layout; Phil/Props/C02Nested.lean);
+      dottedName names in any layout; Phil/Props/C02Nested.lean);
     * source lines of nested documents (`layLined`, `layNamePos`; Phil/Props/C15Nested.lean).
   Lemmas carry the suffix `_l2`; the flat layout vocabulary (`Pre`, `FillLine`, `Terminator`,
   `DefLayout`, `wfDoc`, `render`) is that of Phil/Proofs/Layout.lean.
@@ -418,7 +418,7 @@ theorem collectObjects_bang_defn_step_l2 (fuel : Nat) (st : PState) (stop : Opti
 
 theorem ends_bang_l2 : endsUnquoted structSettings '!' = false := by rfl
 
-/-- the structure tokenizer on an item name (good, possibly dotted), possibly with `!` glued in front,
+/-- the structure tokenizer on an item name (good, possibly dottedName), possibly with `!` glued in front,
     followed by text in front of which an unquoted word ends -/
 theorem nextWordAux_bang_name_gen_l2 (b : Bool) (nm rest : Str) (l : Nat) (hit : ItemName nm)
     (hstop : stopsAt structSettings rest = true) :
@@ -667,7 +667,7 @@ theorem render_unbang_all_false_l2 (ds : List (DefSpec × DefLayout × Bool)) (p
     rw [renderB_l2, e1, render, ih (fun y hy => h y (by simp [hy]))]
     simp [bangText_l2]
 
-/-! ### nested braces versus dotted names -/
+/-! ### nested braces versus dottedName names -/
 
 mutual
 /-- a tree without ids, source positions and `merge_names` flags: `erase` + `mergeNames := false` -/
@@ -736,7 +736,7 @@ theorem fits_exists_l2 (x : Obj) : ∀ (ms : List Str) (ind : Str), ∃ w, Fits 
     (motive_2 := fun os => ∀ (ms : List Str) (ind : Str), ∃ w, FitsAll w os ms ind) with
   | defn m ws =>
     intro ms ind
-    exact ⟨((ind ++ defHead (dotted ms m.name) ++ wordsText ws).length : Int) + 2, by unfold Fits; omega⟩
+    exact ⟨((ind ++ defHead (dottedName ms m.name) ++ wordsText ws).length : Int) + 2, by unfold Fits; omega⟩
   | scope m os ih =>
     intro ms ind
     by_cases hfm : firstMerges os = true
@@ -795,7 +795,7 @@ theorem fits_kids_l2 (w : Int) (os : List Obj) (ms : List Str) (ind : Str) (h : 
     exact ⟨a2 hc.1, b2 hc.2⟩
 
 /-- **`parse` of the canonical unwrapped text of a document of trees** (`flatKids`: one line per
-    definition, `name {` … `}` for a proper scope, dotted names for chains; no print width involved) -/
+    definition, `name {` … `}` for a proper scope, dottedName names for chains; no print width involved) -/
 theorem parseObjs_flatKids_l2 (objs : List Obj) (h : RTAll objs) (hc : allDefnsList ChainOK objs) :
     ∃ objs', parseObjs (flatKids objs [] []) = .ok objs' ∧ eraseList objs' = eraseList objs ∧
       idsList objs' = (expIdsSeq 1 objs).map some := by
@@ -804,14 +804,14 @@ theorem parseObjs_flatKids_l2 (objs : List Obj) (h : RTAll objs) (hc : allDefnsL
   obtain ⟨objs', h1, h2, h3⟩ := parseObjs_trees w objs h (hok hc)
   exact ⟨objs', by rw [← e]; exact h1, h2, h3⟩
 
-/-! #### one object below a path of scopes, spelt with braces or with a dotted name -/
+/-! #### one object below a path of scopes, spelt with braces or with a dottedName name -/
 
 /-- `x` inside the scopes `ns`, every scope a proper one (`merge_names = False` everywhere) -/
 def bracesIn_l2 : List Str → Obj → Obj
   | [], x => x
   | n :: ns, x => .scope { name := n } [bracesIn_l2 ns x]
 
-/-- `x` inside the scopes `ns` the way `scope.adopt` builds it for the dotted name `ns.x`:
+/-- `x` inside the scopes `ns` the way `scope.adopt` builds it for the dottedName name `ns.x`:
     `merge_names = True` on everything but the outermost scope -/
 def dottedIn_l2 (ns : List Str) (x : Obj) : Obj :=
   nestIn none false ns (x.withMeta (fun m => { m with mergeNames := !ns.isEmpty }))
@@ -931,7 +931,7 @@ theorem flatText_bracesIn_l2 (ns : List Str) (x : Obj) (hx : x.meta.mergeNames =
 
 /-- One item of a nested document together with its layout and its spelling.
     * `defn path d L bang` — the definition `d = (name, words)` under the flat layout `L` (filler in
-      front, blanks around `=` and the words, terminator), spelt with the dotted name
+      front, blanks around `=` and the words, terminator), spelt with the dottedName name
       `p1.….pk.name` when `path = [p1, …, pk]` is not empty; `!` glued in front of the name iff `bang`;
     * `scope path nm bang pre gap kids close` — the scope `nm` (header `p1.….pk.nm {`): `pre` is the
       filler in front of the name (filler lines, then blanks on the line of the name), `!` iff `bang`,
@@ -951,9 +951,9 @@ def LayItem.pre : LayItem → Pre
 mutual
 /-- the text of an item from its name (or `!`) on -/
 def LayItem.body : LayItem → Str
-  | .defn p d L b => bangText_l2 b ++ defText (dotted p d.1, d.2) L
+  | .defn p d L b => bangText_l2 b ++ defText (dottedName p d.1, d.2) L
   | .scope p nm b _ gap kids close =>
-    bangText_l2 b ++ (dotted p nm ++ (gap.text ++ '{' :: (layItemsText kids ++ (close.text ++ ['}']))))
+    bangText_l2 b ++ (dottedName p nm ++ (gap.text ++ '{' :: (layItemsText kids ++ (close.text ++ ['}']))))
 /-- the text of a list of items -/
 def layItemsText : List LayItem → Str
   | [] => []
@@ -973,9 +973,9 @@ def gapOK_l2 (g : Pre) : Bool :=
   | [] => true
   | f :: _ => !f.ind.isEmpty || f.cmt.isNone
 
-/-- the (possibly dotted) name of an item: good dot-free components, the whole not reserved -/
+/-- the (possibly dottedName) name of an item: good dot-free components, the whole not reserved -/
 def goodPathName_l2 (p : List Str) (nm : Str) : Bool :=
-  p.all goodName && goodName nm && !isReserved (dotted p nm)
+  p.all goodName && goodName nm && !isReserved (dottedName p nm)
 
 mutual
 /-- well-formedness of an item; `eofOK`: the item is the last one of its block and `}` (or the end of
@@ -997,7 +997,7 @@ def wfDocN (xs : List LayItem) (post : Pre) : Bool := wfLayItems xs post.lines.i
 
 mutual
 /-- number of printed items (= primary ids handed out) of an item: one per definition and per scope
-    header; the scopes `scope.adopt` builds for a dotted name share the id of their item -/
+    header; the scopes `scope.adopt` builds for a dottedName name share the id of their item -/
 def LayItem.count : LayItem → Nat
   | .defn _ _ _ _ => 1
   | .scope _ _ _ _ _ kids _ => 1 + layCount kids
@@ -1019,7 +1019,7 @@ end
 
 mutual
 /-- what the parser builds for an item whose filler starts on line `l`, the next id being `i`: the
-    object itself, wrapped (`nestIn`) into the scopes of its dotted path the way `scope.adopt` does -/
+    object itself, wrapped (`nestIn`) into the scopes of its dottedName path the way `scope.adopt` does -/
 def LayItem.obj : LayItem → Nat → Nat → Obj
   | .defn p d L b, l, i =>
     nestIn (some i) false p
@@ -1072,7 +1072,7 @@ theorem TailOK_l2.eofHead {stop : Option Word} {X : Str} (h : TailOK_l2 stop X) 
   · exact Or.inr ⟨after, rfl⟩
 
 theorem goodPathName_facts_l2 {p : List Str} {nm : Str} (h : goodPathName_l2 p nm = true) :
-    GoodPath p ∧ goodName nm = true ∧ isReserved (dotted p nm) = false ∧ ItemName (dotted p nm) := by
+    GoodPath p ∧ goodName nm = true ∧ isReserved (dottedName p nm) = false ∧ ItemName (dottedName p nm) := by
   simp only [goodPathName_l2, Bool.and_eq_true, Bool.not_eq_true', List.all_eq_true] at h
   obtain ⟨⟨h1, h2⟩, h3⟩ := h
   exact ⟨h1, h2, h3, itemName_dotted h1 h2 h3⟩
@@ -1102,7 +1102,7 @@ theorem LayItem.body_safe (x : LayItem) (e : Bool) (h : x.wf e = true) (rest : S
     simp only [LayItem.wf, Bool.and_eq_true] at h
     obtain ⟨_, _, _, hit⟩ := goodPathName_facts_l2 h.1.1.1
     have : (LayItem.defn p d L b).body ++ rest
-        = bangText_l2 b ++ (dotted p d.1 ++ (L.sp1 ++ '=' :: (wordsLay L.gaps d.2 ++ L.term.text) ++ rest)) := by
+        = bangText_l2 b ++ (dottedName p d.1 ++ (L.sp1 ++ '=' :: (wordsLay L.gaps d.2 ++ L.term.text) ++ rest)) := by
       simp [LayItem.body, defText]
     rw [this]
     exact bang_name_safeHead_l2 b hit _
@@ -1110,7 +1110,7 @@ theorem LayItem.body_safe (x : LayItem) (e : Bool) (h : x.wf e = true) (rest : S
     simp only [LayItem.wf, Bool.and_eq_true] at h
     obtain ⟨_, _, _, hit⟩ := goodPathName_facts_l2 h.1.1.1.1.1
     have : (LayItem.scope p nm b pre gap kids close).body ++ rest
-        = bangText_l2 b ++ (dotted p nm ++ ((gap.text ++ '{' :: (layItemsText kids ++ (close.text ++ ['}']))) ++ rest)) := by
+        = bangText_l2 b ++ (dottedName p nm ++ ((gap.text ++ '{' :: (layItemsText kids ++ (close.text ++ ['}']))) ++ rest)) := by
       simp [LayItem.body]
     rw [this]
     exact bang_name_safeHead_l2 b hit _
@@ -1140,10 +1140,10 @@ theorem firstPreN_wf_l2 (xs : List LayItem) (e : Bool) (tp : Pre)
     simp only [wfLayItems, Bool.and_eq_true] at hwf
     exact x.pre_wf _ hwf.1
 
-/-- `scope.adopt` on an object with the dotted name `p1.….pk.nm` -/
+/-- `scope.adopt` on an object with the dottedName name `p1.….pk.nm` -/
 theorem wrapDotted_defn_l2 (p : List Str) (nm : Str) (hp : GoodPath p) (hn : goodName nm = true)
     (i : Option Nat) (b : Bool) (ln : Option Nat) (ws : List Word) :
-    wrapDotted (.defn { name := dotted p nm, id := i, disabled := b, line := ln } ws)
+    wrapDotted (.defn { name := dottedName p nm, id := i, disabled := b, line := ln } ws)
       = nestIn i false p (.defn { name := nm, id := i, disabled := b, line := ln,
                                   mergeNames := !p.isEmpty } ws) := by
   rw [wrapDotted_dotted _ p nm rfl (fun n hn' => (hp.snoc hn).noDots n hn') rfl]
@@ -1151,7 +1151,7 @@ theorem wrapDotted_defn_l2 (p : List Str) (nm : Str) (hp : GoodPath p) (hn : goo
 
 theorem wrapDotted_scope_l2 (p : List Str) (nm : Str) (hp : GoodPath p) (hn : goodName nm = true)
     (i : Option Nat) (b : Bool) (ln : Option Nat) (os : List Obj) :
-    wrapDotted (.scope { name := dotted p nm, id := i, disabled := b, line := ln } os)
+    wrapDotted (.scope { name := dottedName p nm, id := i, disabled := b, line := ln } os)
       = nestIn i false p (.scope { name := nm, id := i, disabled := b, line := ln,
                                    mergeNames := !p.isEmpty } os) := by
   rw [wrapDotted_dotted _ p nm rfl (fun n hn' => (hp.snoc hn).noDots n hn') rfl]
@@ -1301,7 +1301,7 @@ theorem itemTurn_defn_l2 (p : List Str) (d : DefSpec) (L : DefLayout) (b : Bool)
   obtain ⟨_, hne, hgood, hchain⟩ := goodDef_good hgd
   simp only [wfDef, Bool.and_eq_true, Pre.wf] at hwd
   obtain ⟨⟨⟨⟨_, hpi⟩, hsp1⟩, hgaps⟩, hterm⟩ := hwd
-  obtain ⟨ci4, hstep, hnext⟩ := defn_turn_l2 (dotted p d.1, d.2) L b L.pre.ind ls ind' X' hit hne hgood
+  obtain ⟨ci4, hstep, hnext⟩ := defn_turn_l2 (dottedName p d.1, d.2) L b L.pre.ind ls ind' X' hit hne hgood
     hchain hpi hsp1 hgaps hterm hls hind' hX
     (by
       intro hte
@@ -1327,7 +1327,7 @@ theorem itemTurn_scope_l2 (p : List Str) (nm : Str) (b : Bool) (pre gap : Pre) (
   have hfk : layCount kids + 1 ≤ fuel := by
     simp only [LayItem.count] at hf; omega
   -- the header
-  have hhead := scope_header_turn_l2 (dotted p nm) b pre.ind gap
+  have hhead := scope_header_turn_l2 (dottedName p nm) b pre.ind gap
     (layItemsText kids ++ (close.text ++ ('}' :: (linesStr ls ++ (ind' ++ X')))))
     hit hpre'.2 hgap hgok fuel st stop prevLine acc pending (l + pre.lines.length)
     (by
@@ -1348,7 +1348,7 @@ theorem itemTurn_scope_l2 (p : List Str) (nm : Str) (b : Bool) (pre gap : Pre) (
       rw [layItems_split_l2, struct_skip_lines _ hfp.1])
   have hci'' := hci' _ rfl
   refine ⟨st', adopt (flush acc pending)
-      (.scope { name := dotted p nm, id := some st.nextId, disabled := b,
+      (.scope { name := dottedName p nm, id := some st.nextId, disabled := b,
                 line := some (l + pre.lines.length) }
         (layObjs kids (l + pre.lines.length + gap.lines.length) (st.nextId + 1))),
     none, l + pre.lines.length, ?_, ?_, ?_, ?_⟩
@@ -1478,7 +1478,7 @@ theorem parseObjs_renderN_l2 (xs : List LayItem) (post : Pre) (h : wfDocN xs pos
 /-! #### the abstract tree of a nested layout; ids -/
 
 mutual
-/-- the abstract tree of an item: names, dotted-chain structure, `!` flags, words — nothing of the
+/-- the abstract tree of an item: names, dottedName-chain structure, `!` flags, words — nothing of the
     layout, no ids, no lines -/
 def LayItem.tree : LayItem → Obj
   | .defn p d _ b => nestIn none false p (.defn { name := d.1, disabled := b, mergeNames := !p.isEmpty } d.2)
@@ -1524,7 +1524,7 @@ theorem layTrees_firstMerges_l2 (xs : List LayItem) : firstMerges (layTrees xs) 
   | nil => rfl
   | cons x xs => exact layTree_merge_l2 x
 
-/-- ids and item count of a dotted chain: the scopes share the id of the item -/
+/-- ids and item count of a dottedName chain: the scopes share the id of the item -/
 theorem expIds_nestIn_l2 (id : Option Nat) (i : Nat) (p : List Str) (y : Obj) : ∀ b,
     (p ≠ [] → y.meta.mergeNames = true) →
     expIds i (nestIn id b p y) = List.replicate p.length i ++ expIds i y ∧
@@ -1601,7 +1601,7 @@ end
 
 mutual
 /-- the `!` flags of an item, one per object of its tree in document order (a scope before its items);
-    the scopes built for the leading components of a dotted name are never disabled -/
+    the scopes built for the leading components of a dottedName name are never disabled -/
 def LayItem.flags : LayItem → List Bool
   | .defn p _ _ b => List.replicate p.length false ++ [b]
   | .scope p _ b _ _ kids _ => List.replicate p.length false ++ b :: layFlags kids
@@ -1793,7 +1793,7 @@ theorem layTrees_rt_l2 (xs : List LayItem) (e : Bool) (hwf : wfLayItems xs e = t
     unfold RTAll allDefnsList
     exact ⟨⟨a1, b1⟩, a2, b2⟩
 
-/-- the tree of a dotted item is, up to `merge_names`, the item inside proper scopes -/
+/-- the tree of a dottedName item is, up to `merge_names`, the item inside proper scopes -/
 theorem layTree_eraseMerge_defn_l2 (p : List Str) (d : DefSpec) (L : DefLayout) (b : Bool) :
     (LayItem.defn p d L b).tree.eraseMerge
       = bracesIn_l2 p (.defn { name := d.1, disabled := b } (d.2.map Word.erase)) := by
@@ -1817,12 +1817,12 @@ def LayItem.lined : LayItem → Str → Nat → Obj
     nestIn (some i) false p
       (.defn { name := d.1, id := some i, disabled := b,
                line := some (1 + nlCount (before ++ L.pre.text)), mergeNames := !p.isEmpty }
-        (linedWords (before ++ L.pre.text ++ bangText_l2 b ++ dotted p d.1 ++ L.sp1 ++ ['=']) L.gaps d.2))
+        (linedWords (before ++ L.pre.text ++ bangText_l2 b ++ dottedName p d.1 ++ L.sp1 ++ ['=']) L.gaps d.2))
   | .scope p nm b pre gap kids _, before, i =>
     nestIn (some i) false p
       (.scope { name := nm, id := some i, disabled := b,
                 line := some (1 + nlCount (before ++ pre.text)), mergeNames := !p.isEmpty }
-        (layLined kids (before ++ pre.text ++ bangText_l2 b ++ dotted p nm ++ gap.text ++ ['{']) (i + 1)))
+        (layLined kids (before ++ pre.text ++ bangText_l2 b ++ dottedName p nm ++ gap.text ++ ['{']) (i + 1)))
 def layLined : List LayItem → Str → Nat → List Obj
   | [], _, _ => []
   | x :: xs, before, i => x.lined before i :: layLined xs (before ++ (x.pre.text ++ x.body)) (i + x.count)
@@ -1851,8 +1851,8 @@ theorem layLined_eq_l2 (x : LayItem) : ∀ (before : Str) (i : Nat) (e : Bool), 
     have hl : 1 + nlCount before + L.pre.lines.length = 1 + nlCount (before ++ L.pre.text) := by
       rw [nlCount_append, nlCount_pre _ hpre]; omega
     have hb : 1 + nlCount (before ++ L.pre.text)
-        = 1 + nlCount (before ++ L.pre.text ++ bangText_l2 b ++ dotted p d.1 ++ L.sp1 ++ ['=']) := by
-      rw [nlCount_append _ ['='], nlCount_append _ L.sp1, nlCount_append _ (dotted p d.1),
+        = 1 + nlCount (before ++ L.pre.text ++ bangText_l2 b ++ dottedName p d.1 ++ L.sp1 ++ ['=']) := by
+      rw [nlCount_append _ ['='], nlCount_append _ L.sp1, nlCount_append _ (dottedName p d.1),
         nlCount_append _ (bangText_l2 b), hnn, inlineB_nl hsp1, nlCount_eq,
         nlCount_bang_l2]
       omega
@@ -1875,13 +1875,13 @@ theorem layLined_eq_l2 (x : LayItem) : ∀ (before : Str) (i : Nat) (e : Bool), 
     have hl : 1 + nlCount before + pre.lines.length = 1 + nlCount (before ++ pre.text) := by
       rw [nlCount_append, nlCount_pre _ hpre]; omega
     have hb : 1 + nlCount before + pre.lines.length + gap.lines.length
-        = 1 + nlCount (before ++ pre.text ++ bangText_l2 b ++ dotted p nm ++ gap.text ++ ['{']) := by
+        = 1 + nlCount (before ++ pre.text ++ bangText_l2 b ++ dottedName p nm ++ gap.text ++ ['{']) := by
       simp only [nlCount_append]
       rw [nlCount_pre _ hpre, nlCount_pre _ hgap, hnn, nlCount_bang_l2, nlCount_open_l2]
       omega
-    obtain ⟨h1, h2⟩ := ih (before ++ pre.text ++ bangText_l2 b ++ dotted p nm ++ gap.text ++ ['{']) (i + 1) _ hkids
+    obtain ⟨h1, h2⟩ := ih (before ++ pre.text ++ bangText_l2 b ++ dottedName p nm ++ gap.text ++ ['{']) (i + 1) _ hkids
     have hb' : 1 + nlCount (before ++ pre.text) + gap.lines.length
-        = 1 + nlCount (before ++ pre.text ++ bangText_l2 b ++ dotted p nm ++ gap.text ++ ['{']) := by
+        = 1 + nlCount (before ++ pre.text ++ bangText_l2 b ++ dottedName p nm ++ gap.text ++ ['{']) := by
       rw [← hl]; exact hb
     constructor
     · rw [LayItem.obj, LayItem.lined, hl, hb', h1]
@@ -1928,18 +1928,18 @@ theorem parseObjs_renderN_lined_l2 (xs : List LayItem) (post : Pre) (h : wfDocN 
   rfl
 
 /-- where a name stands: `none` for a scope that `scope.adopt` builds for a leading component of a
-    dotted name (it has no source position); else the text in front of the (dotted) name — up to and
-    including a `!` — and the (dotted) name as it is written -/
+    dottedName name (it has no source position); else the text in front of the (dottedName) name — up to and
+    including a `!` — and the (dottedName) name as it is written -/
 abbrev NamePos := Option (Str × Str)
 
 mutual
 /-- for every object of the item's tree in document order: its name and where it stands -/
 def LayItem.namePos : LayItem → Str → List (Str × NamePos)
   | .defn p d L b, before =>
-    p.map (fun n => (n, none)) ++ [(d.1, some (before ++ L.pre.text ++ bangText_l2 b, dotted p d.1))]
+    p.map (fun n => (n, none)) ++ [(d.1, some (before ++ L.pre.text ++ bangText_l2 b, dottedName p d.1))]
   | .scope p nm b pre gap kids _, before =>
-    p.map (fun n => (n, none)) ++ (nm, some (before ++ pre.text ++ bangText_l2 b, dotted p nm)) ::
-      layNamePos kids (before ++ pre.text ++ bangText_l2 b ++ dotted p nm ++ gap.text ++ ['{'])
+    p.map (fun n => (n, none)) ++ (nm, some (before ++ pre.text ++ bangText_l2 b, dottedName p nm)) ::
+      layNamePos kids (before ++ pre.text ++ bangText_l2 b ++ dottedName p nm ++ gap.text ++ ['{'])
 def layNamePos : List LayItem → Str → List (Str × NamePos)
   | [], _ => []
   | x :: xs, before => x.namePos before ++ layNamePos xs (before ++ (x.pre.text ++ x.body))
@@ -2028,7 +2028,7 @@ theorem namePos_prefix_l2 (x : LayItem) : ∀ (before : Str) (n pre full : Str),
       refine ⟨tail ++ (close.text ++ ['}']), ?_⟩
       have : before ++ ((LayItem.scope p nm b pre0 gap kids close).pre.text
             ++ (LayItem.scope p nm b pre0 gap kids close).body)
-          = (before ++ pre0.text ++ bangText_l2 b ++ dotted p nm ++ gap.text ++ ['{'] ++ layItemsText kids)
+          = (before ++ pre0.text ++ bangText_l2 b ++ dottedName p nm ++ gap.text ++ ['{'] ++ layItemsText kids)
             ++ (close.text ++ ['}']) := by
         simp [LayItem.pre, LayItem.body]
       rw [this, ht]
